@@ -12,6 +12,7 @@
 # permissions and limitations under the License.
 from typing import Optional, List, Dict, Any
 import logging
+import copy
 
 from syne_tune.optimizer.schedulers.searchers.gp_searcher_factory import (
     gp_multifidelity_searcher_factory,
@@ -269,7 +270,8 @@ class GPMultiFidelitySearcher(GPFIFOSearcher):
     def clone_from_state(self, state):
         # Create clone with mutable state taken from 'state'
         init_state = decode_state(state["state"], self._hp_ranges_in_state())
-        skip_optimization = state["skip_optimization"]
+        # Copy: ``state`` may be used to create more than one clone
+        skip_optimization = copy.deepcopy(state["skip_optimization"])
         estimator = self.state_transformer.estimator
         # Call internal constructor
         new_searcher = GPMultiFidelitySearcher(
